@@ -101,4 +101,11 @@ theorem item_count_accepted (nData : Int) : Gen.transformLengthGuard nData nData
 theorem src_inverse_selects_norms_by_label :
     Gen.singleInverseNormalizedBody = ["norms = self.data['norms'].sel(mode=scores.mode)", "scores = scores * norms"] := by decide
 
+/-- source obligations: the reconstruction selects the components by the scores' mode labels (an unknown label raises), and `alpha`
+reaches the Whitener's range check unmodified (converted to float only) -/
+theorem src_unknown_modes_and_alpha_reach_their_checks :
+    Gen.eofInverseCompsExpr = ["self.data['components'].sel(mode=scores.mode)"] ∧
+    Gen.crossAlphaAssignments = ["self._process_parameter('alpha', alpha, 1.0)", "[float(a) for a in alpha]"] ∧
+    Gen.crossWhitener1.lookup "alpha" = some "alpha[0]" ∧ Gen.crossWhitener2.lookup "alpha" = some "alpha[1]" := by decide
+
 end C17
